@@ -16,3 +16,6 @@ def run_proofs(ctx):
 
     reg3, cs3 = c02.build()
     run_contracts(ctx, cs3, reg3, workloads=c02.workloads(), concrete_env=c02.CONCRETE_ENV)
+    from vf.proofs import c18_eval
+
+    c18_eval.run_proofs(ctx)
